@@ -16,7 +16,10 @@ def rangeInvalid (r : RangeSpec) : Bool := match mkRange r with | .ok _ => false
 /-- Network-level validators (pydantic field and model validators of Network/EndpointDesc/…),
     as a chain of decidable conditions; the first that holds rejects the description -/
 def validateDesc (d : Desc) : D Unit :=
-  if d.endpoints.any (fun e => e.ranges.any rangeInvalid) then throw (.range "invalid address range")
+  -- Routing.check_id_addr_offset (the routing section is validated before the endpoints)
+  if d.algo == .ID && !d.useIdTable && d.addrOffsetBits.isNone then
+    throw (.schema "`addr_offset_bits` is required for ID routing without `use_id_table`")
+  else if d.endpoints.any (fun e => e.ranges.any rangeInvalid) then throw (.range "invalid address range")
   -- check_addr_range: a subordinate needs an address range
   else if d.endpoints.any (fun e => e.isSbr && e.ranges.isEmpty) then
     throw (.range "Endpoint is a Subordinate and requires an address range")
